@@ -217,3 +217,8 @@ def adjoint_shared_binder_name(o, k):
                 if total > inside:
                     return True
     return False
+
+
+def safesub_scalar_neginf(o, k):
+    """ops.safesub on two PYTHON scalars at (-inf, -inf) is plain subtraction (NaN); the array kernel returns -inf"""
+    return str(o.get("label", "")).startswith("('edge', 'safesub', -inf, -inf,")
